@@ -406,6 +406,22 @@ def oracle(case):
 				return {'what': 'decompress of a body supplied by %s raised %s: %s' % (how, exc_name(e), e), 'case': describe(case), 'finding': None}
 			if got != content:
 				return {'what': 'decompress of a body supplied by %s returned %d octets for %d' % (how, len(got), len(content)), 'case': describe(case), 'finding': None}
+		# one Body object whose coding is changed: what it puts on the wire is a stream of the coding it announces at that moment
+		if kind in ('bytes', 'list') and content:
+			other = 'deflate' if coding == 'gzip' else 'gzip'
+			try:
+				y = make_body(kind, pieces)
+				y.content_encoding = coding
+				first = b''.join(iter(y))
+				y.content_encoding = other
+				announced = y.content_encoding
+				second = b''.join(iter(y))
+				ok1 = zlib.decompress(first, 31 if coding == 'gzip' else 15) == content
+				ok2 = zlib.decompress(second, 31 if other == 'gzip' else 15) == content
+			except Exception as e:
+				return {'what': 'a body switched from %s to %s raised %s: %s' % (coding, other, exc_name(e), e), 'case': describe(case), 'finding': None}
+			if not (ok1 and ok2):
+				return {'what': 'a body switched from %s to %s announces %s but its octets are not such a stream of the content' % (coding, other, announced), 'case': describe(case), 'finding': None}
 		# through the wire: composer -> state machine
 		for side in ('response', 'request'):
 			r = wire_roundtrip(side, coding, kind, pieces, chunked)
@@ -465,6 +481,8 @@ def oracle(case):
 		from httoop.messages.body import Body
 		_, cs, pairs = case
 		mt = 'application/x-www-form-urlencoded; charset=%s' % cs
+		if cs == 'utf-8' and len(pairs) % 2:
+			mt = 'application/x-www-form-urlencoded'      # no charset parameter: the body's default (UTF-8) on both sides
 		try:
 			back = FormURLEncoded.decode(FormURLEncoded.encode(pairs, cs), cs)
 			b = Body(mimetype=mt)
